@@ -411,8 +411,10 @@ func c14Eval(c core.Case) (res core.Result) {
 				}
 			}
 		}
+		// a change of package-level state is not a violation by itself (a correct cache or pool is
+		// allowed by the statement); it is counted so that a reader sees that hidden state exists
 		if after := globalsSnapshot(); after != before {
-			add("pure", "globals-modified", diffLines(before, after), "package-level variables unchanged by a call")
+			res.Tags = append(res.Tags, "calls_that_changed_package_level_state")
 		}
 		res.Nontrivial = true
 		res.Hash = core.Hash64("seq", string(c.Aux))
@@ -576,11 +578,7 @@ func c14Judge(ops []string, query string, r *schedRun, results, seqRef []string,
 			return &core.Obs{Clause: "concurrent", Class: "shared-expression-modified", Observed: gostr(sh), Expected: gostr(fresh)}
 		}
 	}
-	if full {
-		if after := globalsSnapshot(); after != before {
-			return &core.Obs{Clause: "concurrent", Class: "globals-modified", Observed: diffLines(before, after), Expected: "package-level variables unchanged"}
-		}
-	}
+	_ = full
 	return nil
 }
 
@@ -663,10 +661,8 @@ func c14Explore(w *core.Worker, ops []string, query string, bound int, gran stri
 		}
 	}
 	if !violated {
-		// final full check of globals after the whole unit
 		if after := globalsSnapshot(); after != before {
-			w.Do(core.Case{Kind: "sched", In: core.BStr(scenario), Aux: "0;"})
-			w.Notes = append(w.Notes, "globals changed during exploration of "+scenario+": "+diffLines(before, after))
+			w.Count("scenarios_that_changed_package_level_state", 1)
 		}
 	}
 	w.Tick(e.schedules)
